@@ -140,6 +140,17 @@ def run_case(case, ctx):
         f = lambda z: (0.5 + 1.0j) * f0(z)
         exact = (0.5 + 1.0j) * exact
         fscale *= 1.2
+    elif variant == 'length1' and case['seed'] % 2:
+        # ... handed back in one preallocated buffer that the function reuses for every call (np.matmul(..., out=buf))
+        ctx.count('length_one_output_in_a_reused_buffer')
+        buf_ = np.zeros(1, dtype=complex if method in ('complex', 'multicomplex') else float)
+
+        def f(z):
+            v_ = f0(z)
+            if isinstance(v_, (int, float, complex, np.number)):
+                buf_[0] = v_
+                return buf_
+            return np.array([v_])        # (a Bicomplex value: no buffer)
     elif variant == 'length1':
         f = lambda z: np.array([f0(z)])
     elif variant == 'zero_d_output':
